@@ -15,6 +15,12 @@ Case (driver "schedule"):
      ack                       tor's reply to the oldest unanswered CLOSECIRCUIT/CLOSESTREAM arrives
      x_gone                    tor reports an object whose close it accepted CLOSED/FAILED (= the c_close/s_close
                                world op aimed at that object)
+     q_build                   state.build_circuit(routers=None | 1-3 consensus relays (a), using_guards (b%2),
+                               purpose None|'controller' (b%5==4)); the reference tor launches a circuit and answers
+                               '250 EXTENDED <id>' (c%7==6: '551 Couldn't start circuit'); the reply is withheld
+                               like the CLOSE* replies; c%3==0: the LAUNCHED event is emitted at once (event first),
+                               c%3==1: the reply is delivered at once (reply first), c%3==2: both later
+     c_announce                the LAUNCHED event of a circuit launched by q_build (world op)
 After the last step every withheld reply is delivered and the waits are judged once more.
 """
 from __future__ import annotations
@@ -35,7 +41,10 @@ RULE = ("Model-based: the C07 world histories (snapshot from a generated pre-his
         "any step) or on one object, removed at any step; when_built()/when_closed()/Circuit.close()/"
         "Stream.close() requested at any step, repeatedly, on live and on already-gone objects; the reply to "
         "CLOSECIRCUIT/CLOSESTREAM is a separate step (ack) and so is tor carrying out the close (x_gone, or any "
-        "c_close/s_close), so the acknowledgement arrives before or after the CLOSED/FAILED event. "
+        "c_close/s_close), so the acknowledgement arrives before or after the CLOSED/FAILED event; the public "
+        "TorState.build_circuit() (no path / 1-3 consensus relays, with/without purpose) is called at any step, "
+        "the reference tor launches the circuit and its '250 EXTENDED id' (or 551) reply is withheld the same way, "
+        "so LAUNCHED/EXTENDED/BUILT events arrive before or after it. "
         "After every event the calls each double received during that event are compared with the calls "
         "derived from the world's transition; after every step every wait's state is compared with "
         "pending/succeeded/failed as the statement prescribes. Non-trivial = >=6 events, at least one judged "
@@ -66,10 +75,18 @@ ASSUMPTIONS = [
     "requests for that object are not compared with each other",
     "between the CLOSED/FAILED event and a still outstanding acknowledgement a close wait may be pending or "
     "complete; it must be complete once every acknowledgement has arrived",
+    "build_circuit(): a circuit is never reported CLOSED/FAILED while the '250 EXTENDED id' reply that announces "
+    "it is still outstanding (tor answers EXTENDCIRCUIT from the call that launches the circuit; only the "
+    "flushing order of the queued LAUNCHED/EXTENDED/BUILT events versus the reply varies) - excluded by "
+    "construction; routers are consensus relays; purposes general/controller",
+    "when the '250 EXTENDED id' reply is the first the controller hears of a circuit, circuit_new may be "
+    "delivered with the reply or with the LAUNCHED event that follows (exactly once in total); nothing else "
+    "may be notified by a reply",
 ]
 
 EXTRA_OPS = {"l_global_c": 2, "l_global_s": 2, "l_listen_c": 3, "l_listen_s": 3, "l_unlisten_c": 2,
-             "l_unlisten_s": 2, "w_built": 5, "w_closed": 3, "q_close_c": 5, "q_close_s": 6, "ack": 7, "x_gone": 5}
+             "l_unlisten_s": 2, "w_built": 5, "w_closed": 3, "q_close_c": 5, "q_close_s": 6, "ack": 7, "x_gone": 5,
+             "q_build": 4, "c_announce": 3}
 
 
 def cases():
@@ -276,6 +293,8 @@ class Wait(object):
 
 def judge_waits(res, waits, final, where):
     for w in waits:
+        if w.kind == "build":
+            continue
         f = w.watch.fired
         out = "pending" if f == 0 else ("failed" if w.watch.failed else "succeeded")
         m = w.m
@@ -345,6 +364,11 @@ class Run(object):
         self.events = 0
         self.reversed_ack = False
         self.both_sides = False
+        self.builds = []            # build_circuit() requests in order: k-th <-> sess.extend_log[k]
+        self.build_delivered = set()
+        self.introduced = set()     # incs the controller first heard of through a 250 EXTENDED reply
+        self.owed_new = set()       # (Lst, inc): circuit_new not delivered with the reply -> due with LAUNCHED
+        self.build_orders = False
 
     # -- bookkeeping
     def note_objects(self):
@@ -365,10 +389,27 @@ class Run(object):
         for l in self.all_listeners():
             l.seen = len(l.rec.calls)
 
+    def knows(self, m):
+        """Has the controller been told about this live world object (event, snapshot or EXTENDED reply)?"""
+        return m.status is not None or m.inc in self.introduced
+
+    def do_ack(self):
+        """Deliver the oldest withheld reply (CLOSE* or EXTENDCIRCUIT)."""
+        sess = self.sess
+        if not sess.held:
+            return
+        self.skip_calls()
+        sess.ack()
+        kind, idx = sess.last_acked
+        if kind == "close":
+            self.acks_sent += 1
+        else:
+            self.on_extend_reply(idx)
+
     def add_global(self, l):
         w = self.sess.world
         live = w.circuits if l.kind == "c" else w.streams
-        l.late_for = set(m.inc for m in live.values())
+        l.late_for = set(m.inc for m in live.values() if self.knows(m))
         if l.kind == "c":
             self.sess.state.add_circuit_listener(l.rec)
         else:
@@ -380,7 +421,7 @@ class Run(object):
     def step(self, i, s):
         op, a, b, c = s
         res, sess, w = self.res, self.sess, self.sess.world
-        if op in torworld.OPS or op == "s_controller_wait":
+        if op in torworld.OPS or op in ("s_controller_wait", "c_announce"):
             rp = sess.step(s)
             if rp is None:
                 return
@@ -388,12 +429,23 @@ class Run(object):
             where = "event %d (650 %s %s)" % (i, rp.kind, rp.line)
             kind = "c" if rp.kind == "CIRC" else "s"
             inc = rp.obj.inc
-            if rp.first_sight:
+            if rp.first_sight and inc not in self.introduced:
                 for l in self.lst[kind]:
                     if l.active_global:
                         l.reg.add(inc)
-            req, opt = expected_calls(rp)
+            req0, opt = expected_calls(rp)
+            if kind == "c" and rp.first_sight and inc in self.introduced:
+                # the 250 EXTENDED reply told the controller first: circuit_new is due now only from listeners
+                # that did not get it with the reply
+                req0 = [x for x in req0 if x[0] != "circuit_new"]
+                res.label("build:reply-before-LAUNCHED")
+                self.build_orders = True
             for l in self.all_listeners():
+                req = req0
+                if (l, inc) in self.owed_new:
+                    self.owed_new.discard((l, inc))
+                    if inc in l.reg:
+                        req = [("circuit_new", rp.obj.id, None)] + req0
                 new = l.rec.calls[l.seen:]
                 l.seen = len(l.rec.calls)
                 if l.kind != kind:
@@ -491,8 +543,7 @@ class Run(object):
                 d = obj.close()
                 sess.pump()
                 if c % 3 == 1 and sess.held:
-                    sess.ack()              # this time tor's reply is not delayed
-                    self.acks_sent += 1
+                    self.do_ack()           # this time tor's reply is not delayed
                 cmd_index = n0 if len(sess.close_lines) > n0 else None
                 repeated = any(x.kind == kind and x.m is m for x in self.waits)
                 self.waits.append(Wait(kind, m, obj, d, m.gone is None, bool(m.gone), cmd_index))
@@ -509,13 +560,145 @@ class Run(object):
                 if ws is not None:
                     self.step(i, ws)
                     return
+        elif op == "q_build":
+            self.q_build(i, a, b, c)
         elif op == "ack":
-            if sess.held:
-                sess.ack()
-                self.acks_sent += 1
+            self.do_ack()
         else:
             raise torworld.HarnessError("unknown op %r" % (op,))
         self.after_client_action()
+
+    # -- TorState.build_circuit()
+    def q_build(self, i, a, b, c):
+        import warnings
+        sess, res = self.sess, self.res
+        routers = None
+        if a % 3:
+            n = 1 + (a // 3) % 3
+            start, stride = (a // 9) % 8, [1, 3, 5, 7][(a // 72) % 4]
+            idx = [(start + k * stride) % 8 for k in range(n)]
+            routers = [sess.state.router_from_id(torworld.RELAYS[k].id_hex) for k in idx]
+        purpose = "controller" if b % 5 == 4 else None
+        sess.extend_pick = a
+        sess.extend_refuse = (c % 7 == 6)
+        n0 = len(sess.extend_log)
+        with warnings.catch_warnings():
+            warnings.simplefilter("ignore")
+            d = sess.state.build_circuit(routers=routers, using_guards=bool(b % 2), purpose=purpose)
+        sess.pump()
+        wt = Wait("build", None, None, d, True, False)
+        wt.follow_up = b
+        wt.index = len(self.builds)
+        self.builds.append(wt)
+        self.waits.append(wt)
+        res.label("build_circuit-" + ("explicit-path" if routers else "tor-picks-path"))
+        if len(sess.extend_log) > n0 and wt.index == n0:
+            circ = sess.extend_log[n0][2]
+            if circ is None:
+                res.label("build:refused")
+            if c % 3 == 0 and circ is not None:
+                ws = ["c_announce", [x for x in (sess.world.circuits[k] for k in sorted(sess.world.circuits))
+                                     if not x.announced].index(circ), 0, 0]
+                self.step(i, ws)
+            elif c % 3 == 1 and sess.held and sess.held_info[0] == ("extend", n0):
+                self.do_ack()
+        else:
+            res.label("build:command-queued-behind-unanswered-command")
+
+    def on_extend_reply(self, idx):
+        """The reply to the idx-th EXTENDCIRCUIT has just been delivered."""
+        sess, res = self.sess, self.res
+        line, reply, m = sess.extend_log[idx]
+        where = "reply %r to %r" % (reply["final"], line)
+        self.build_delivered.add(idx)
+        first = m is not None and m.status is None and m.inc not in self.introduced
+        if m is not None:
+            if first:
+                self.introduced.add(m.inc)
+                for l in self.lst["c"]:
+                    if l.active_global:
+                        l.reg.add(m.inc)
+                        self.owed_new.add((l, m.inc))
+            else:
+                res.label("build:LAUNCHED-before-reply")
+                self.build_orders = True
+        for l in self.all_listeners():
+            new = l.rec.calls[l.seen:]
+            l.seen = len(l.rec.calls)
+            if not new:
+                continue
+            if l.kind == "c" and first and m.inc in l.reg:
+                if [x[0] for x in new] == ["circuit_new"] and _match(new[0], ("circuit_new", m.id, None)) is None:
+                    self.owed_new.discard((l, m.inc))
+                    self.judged_calls += 1
+                    res.label("judged:circuit_new-with-EXTENDED-reply")
+                    continue
+            names = [x[0] for x in new]
+            if "circuit_new" in names and m is not None and not first:
+                res.bad("listener/duplicate-circuit_new/extend-reply-for-known-circuit",
+                        "%s: %s-listener %d got %r for circuit %r, which tor had already reported" % (
+                            where, l.kind, l.idx, names, m.id))
+            else:
+                res.bad("listener/notified-by-command-reply", "%s: %s-listener %d got %r" % (where, l.kind, l.idx, names))
+        wt = self.builds[idx] if idx < len(self.builds) else None
+        if wt is None:
+            raise torworld.HarnessError("EXTENDCIRCUIT %d was not requested through q_build" % idx)
+        wt.m = m
+        if reply["code"] != 250 or wt.watch.fired != 1 or wt.watch.failed:
+            return              # judged by judge_builds
+        obj = wt.watch.result
+        st_ = sess.state
+        if getattr(obj, "id", None) != m.id:
+            res.bad("build_circuit-wrong-circuit", "%s: build_circuit() gave %s (id %r), tor launched %r" % (
+                where, type(obj).__name__, getattr(obj, "id", None), m.id))
+            return
+        if m.gone is None:
+            if st_.circuits.get(m.id) is not obj:
+                res.bad("build_circuit-result-is-not-the-listed-circuit",
+                        "%s: build_circuit() gave %s but state.circuits[%r] is %s" % (
+                            where, obj, m.id, st_.circuits.get(m.id)))
+                return
+            known = [o for (km, o) in self.known_c if km is m]
+            if known and known[0] is not obj:
+                res.bad("build_circuit-reply-replaced-the-circuit-object",
+                        "%s: circuit %r was the object '%s' when its events arrived; build_circuit() resolved to "
+                        "another object '%s' (is state.circuits[id]: %s)" % (
+                            where, m.id, known[0], obj, st_.circuits.get(m.id) is obj))
+                return
+            self.note_objects()
+            # use the returned object like a caller would: listen to it, wait for it
+            fu = wt.follow_up
+            if fu % 2 == 0:
+                l = self.lst["c"][2 + (fu // 2) % 2]
+                if m.inc not in l.reg:
+                    obj.listen(l.rec)
+                    l.reg.add(m.inc)
+                    res.label("build:listener-added-to-returned-circuit")
+            if fu % 3 == 0:
+                self.waits.append(Wait("built", m, obj, obj.when_built(), True, bool(m.reached_built)))
+                res.label("build:when_built-on-returned-circuit")
+
+    def judge_builds(self, final, where):
+        sess, res = self.sess, self.res
+        for wt in self.builds:
+            f = wt.watch.fired
+            if f > 1:
+                res.bad("wait-fired-twice/build", "%s: build_circuit() #%d fired %d times" % (where, wt.index, f))
+            elif wt.index not in self.build_delivered:
+                if f:
+                    res.bad("build_circuit-completed-before-reply", "%s: build_circuit() #%d is %r but its "
+                            "EXTENDCIRCUIT has not been answered" % (where, wt.index, wt.watch.outcome()[:2]))
+            else:
+                reply = sess.extend_log[wt.index][1]
+                if f != 1:
+                    res.bad("build_circuit-never-completes", "%s: build_circuit() #%d still pending after %r" % (
+                        where, wt.index, reply["final"]))
+                elif reply["code"] == 250 and wt.watch.failed:
+                    res.bad("build_circuit-failed-after-250", "%s: build_circuit() #%d: %r after %r" % (
+                        where, wt.index, wt.watch.outcome(), reply["final"]))
+                elif reply["code"] != 250 and not wt.watch.failed:
+                    res.bad("build_circuit-succeeded-after-5xx", "%s: build_circuit() #%d: %r after %r" % (
+                        where, wt.index, wt.watch.outcome()[:2], reply["final"]))
 
     def after_client_action(self):
         # 552 answers taint the outcome comparison for that id
@@ -526,7 +709,7 @@ class Run(object):
             if sess.close_replies[k]["code"] != 250:
                 self.res.label("close-command-answered-552")
                 for wt in self.waits:
-                    if str(wt.m.id) == words[1] and (
+                    if wt.kind in ("close_c", "close_s") and str(wt.m.id) == words[1] and (
                             (wt.kind == "close_c") == (words[0] == "CLOSECIRCUIT")):
                         wt.tainted = True
         self._close_seen = len(sess.close_lines)
@@ -546,7 +729,7 @@ class Run(object):
                     self.add_global(self.lst[kind][idx])
                     res.label("global-listener-before-bootstrap")
         try:
-            self.sess = Session(world, before_connect=before_connect)
+            self.sess = Session(world, before_connect=before_connect, answer_extend=True)
         except BootFailed as e:
             res.bad("bootstrap-failed", str(e))
             return
@@ -567,16 +750,17 @@ class Run(object):
             self.step(i, s)
             self.after_client_action()
             judge_waits(res, self.waits, False, "after step %d %r" % (i, s))
+            self.judge_builds(False, "after step %d %r" % (i, s))
             self.check_log("after step %d %r" % (i, s))
         if not res.ok:
             return
         guard = 0
         while sess.held and guard < 1000:
-            sess.ack()
-            self.acks_sent += 1
+            self.do_ack()
             guard += 1
         self.after_client_action()
         judge_waits(res, self.waits, True, "at the end, every acknowledgement delivered")
+        self.judge_builds(True, "at the end, every acknowledgement delivered")
         self.check_log("at the end")
 
     def check_log(self, where):
@@ -597,6 +781,8 @@ def drive(case):
     both = False
     seen = {}
     for w in run.waits:
+        if w.kind == "build":
+            continue
         key = (w.kind, w.m.inc)
         seen.setdefault(key, set()).add(w.decided_at_request)
         if len(seen[key]) == 2:
@@ -633,10 +819,26 @@ MANIFEST = {
 
 
 def run(ctx):
-    ctx.search("schedule", cases(), quick=1800, thorough=5000)
+    ctx.search("schedule", cases(), quick=1600, thorough=4000)
 
 
 MUTANTS = [
+    ("extend-reply-id-kept-as-string", "txtorcon/torstate.py",
+     "        circ_id = int(circ_id)\n        circ = self._maybe_create_circuit(circ_id)\n        circ.update([str(circ_id), 'EXTENDED'])",
+     "        circ = self._maybe_create_circuit(circ_id)\n        circ.update([circ_id, 'EXTENDED'])"),
+    ("extend-reply-always-makes-a-fresh-circuit", "txtorcon/torstate.py",
+     "        circ_id = int(circ_id)\n        circ = self._maybe_create_circuit(circ_id)",
+     "        circ_id = int(circ_id)\n        circ = self.circuit_factory(self)"),
+    ("extend-reply-announces-circuit_new-again", "txtorcon/torstate.py",
+     "        circ.update([str(circ_id), 'EXTENDED'])\n        return circ",
+     "        circ.update([str(circ_id), 'EXTENDED'])\n        for x in self.circuit_listeners:\n            x.circuit_new(circ)\n        return circ"),
+    ("build-circuit-swallows-rejection", "txtorcon/torstate.py",
+     "        d.addCallback(self._find_circuit_after_extend)\n        return d",
+     "        d.addCallback(self._find_circuit_after_extend)\n        d.addErrback(lambda f: None)\n        return d"),
+    ("new-circuit-from-reply-gets-no-global-listeners", "txtorcon/torstate.py",
+     "        circ = self._maybe_create_circuit(circ_id)\n        circ.update([str(circ_id), 'EXTENDED'])",
+     "        known = circ_id in self.circuits\n        circ = self._maybe_create_circuit(circ_id)\n"
+     "        if not known:\n            circ.listeners = [self]\n        circ.update([str(circ_id), 'EXTENDED'])"),
     ("when-built-fires-on-extended", "txtorcon/circuit.py",
      "        if self.state == 'BUILT':\n            for x in self.listeners:",
      "        if self.state == 'EXTENDED':\n            self._when_built.fire(self)\n        if self.state == 'BUILT':\n            for x in self.listeners:"),
